@@ -2,6 +2,7 @@
 (estimate_mc, fit_discrete_mc): correspondence + spec run."""
 import collections
 import itertools
+import json
 import math
 import warnings
 from fractions import Fraction
@@ -83,10 +84,18 @@ def call_ar1(ctx, fn, name, n, rho, sigma, mu, nstd=None):
     """call rouwenhorst / tauchen with the same values in a randomly chosen ARGUMENT FORM:
     optional arguments omitted (when they equal the default) / positional / keyword; NumPy scalars"""
     r = ctx.rng
-    sc = r.random() < 0.4
-    nn = r.choice([np.int64(n), np.int32(n) if r.random() < 0.2 else np.intp(n)]) if sc else n
-    f = (lambda v: np.float64(v)) if sc else (lambda v: v)
-    ctx.count("%s-form:%s" % (name, "numpy-scalars" if sc else "python-scalars"))
+    sc = r.random() < 0.5
+    # n: tauchen takes every NumPy integer type; rouwenhorst only the wide ones here, the narrow ones
+    # (int8/uint8/int16/uint16) lose precision in np.sqrt(n - 1) -> see narrow_n_probe / rouwenhorst_narrow_int_n
+    wide = [np.int32, np.int64, np.uint32, np.uint64, np.intp]
+    narrow = [np.int8, np.uint8, np.int16, np.uint16]
+    nT = r.choice(wide + (narrow if name == "tauchen" else []))
+    nn = nT(n) if sc else n
+    fT = r.choice([np.float64, np.float64, (lambda v: np.array(v, dtype=np.float64))]) if sc else (lambda v: v)
+    f = fT
+    if sc:
+        ctx.count("%s-form:n=%s" % (name, nT.__name__))
+    ctx.count("%s-form:%s" % (name, "numpy-scalars/0-d" if sc else "python-scalars"))
     args, kw = [nn, f(rho), f(sigma)], {}
     tail = []           # optional arguments still to be placed
     if mu == 0.0 and r.random() < 0.6:
@@ -101,7 +110,7 @@ def call_ar1(ctx, fn, name, n, rho, sigma, mu, nstd=None):
             ns_given = False
         else:
             ns_given = True
-    nsv = (np.int64(nstd) if sc and r.random() < 0.5 else nstd) if ns_given else None
+    nsv = (r.choice(wide + narrow + [lambda v: np.array(v)])(nstd) if sc and r.random() < 0.7 else nstd) if ns_given else None
     style = r.choice(["positional", "keyword", "mixed"])
     ctx.count("%s-form:%s" % (name, style))
     if mu_given:
@@ -120,6 +129,60 @@ def call_ar1(ctx, fn, name, n, rho, sigma, mu, nstd=None):
             kw["mu"] = args[3]
         args = []
     return fn(*args, **kw)
+
+
+class _Reroute:
+    """judge with the ordinary oracle but report under one narrow key through `unlisted`"""
+    def __init__(self, ctx, key, extra):
+        self.ctx, self.key, self.extra, self.hit = ctx, key, extra, False
+
+    def spec_fail(self, key, what, replay):
+        self.hit = True
+        unlisted(self.ctx, self.key, "%s [%s]: %s" % (self.extra, key, what), dict(replay, form=self.extra))
+
+    def count(self, *a, **k):
+        pass
+
+
+def scalar_form_probes(ctx):
+    """scalar forms that the clean code treats in reduced precision"""
+    from quantecon.markov.approximation import rouwenhorst, tauchen
+    r = ctx.rng
+    # (a) n as a narrow NumPy integer: np.sqrt(n - 1) is float16 / float32 and drags the grid with it
+    for T in (np.int8, np.uint8, np.int16, np.uint16):
+        for _ in range(ctx.n(2, 6)):
+            n, rho, sigma, mu = ar1_params(ctx, "small")
+            rr = _Reroute(ctx, "rouwenhorst_narrow_int_n", "n=%s(%d)" % (T.__name__, n))
+            try:
+                mc = rouwenhorst(T(n), rho, sigma, mu)
+                rouw_spec(rr, n, rho, sigma, mu, np.asarray(mc.P, dtype=float), np.asarray(mc.state_values, dtype=float))
+            except Exception as e:
+                rr.spec_fail("raises", "%s: %s" % (type(e).__name__, e), {"op": "rouwenhorst", "n": n, "rho_hex": float(rho).hex(),
+                                                                      "sigma_hex": float(sigma).hex(), "mu_hex": float(mu).hex()})
+            ctx.count("probe:rouw-n=%s:%s" % (T.__name__, "violates" if rr.hit else "ok"))
+    # (b) float32 scalars: the result must agree with the float64 call at the same (exactly converted) values
+    #     to float32 accuracy
+    for fn, name in ((rouwenhorst, "rouwenhorst"), (tauchen, "tauchen")):
+        for _ in range(ctx.n(4, 20)):
+            n, rho, sigma, mu = ar1_params(ctx, "small")
+            v32 = [np.float32(rho), np.float32(sigma), np.float32(mu)]
+            if not abs(float(v32[0])) < 0.99:
+                continue
+            which = r.sample(range(3), r.randint(1, 3))
+            a64 = [float(v) if i in which else (rho, sigma, mu)[i] for i, v in enumerate(v32)]
+            a32 = [v32[i] if i in which else a64[i] for i in range(3)]
+            rp = {"op": name, "n": n, "rho_hex": float(a64[0]).hex(), "sigma_hex": float(a64[1]).hex(),
+                  "mu_hex": float(a64[2]).hex(), "n_std": 3, "float32_positions": which}
+            try:
+                m32, m64 = fn(n, *a32), fn(n, *a64)
+                P32, P64 = np.asarray(m32.P, dtype=float), np.asarray(m64.P, dtype=float)
+                y32, y64 = np.asarray(m32.state_values, dtype=float), np.asarray(m64.state_values, dtype=float)
+                scale = float(np.max(np.abs(y64))) + abs(a64[2] / (1 - a64[0])) + 1e-300
+                if P32.shape != P64.shape or not np.all(np.abs(P32 - P64) <= 2e-5) or not np.all(np.abs(y32 - y64) <= 2e-5 * scale):
+                    ctx.spec_fail("ar1_float32_form", "%s with float32 scalars differs from the float64 call beyond float32 accuracy" % name, rp)
+            except Exception as e:
+                ctx.spec_fail("ar1_float32_form", "%s with float32 scalars raised %s: %s" % (name, type(e).__name__, e), rp)
+            ctx.count("probe:%s-float32-scalars" % name)
 
 
 # ----------------------------------------------------------------------------
@@ -609,10 +672,16 @@ def estimate_cases(ctx, cases):
         ctx.count("estimate:" + kind)
         ctx.count("estimate:len>=100" if len(obs) >= 100 else "estimate:len<100")
         valid = all(t > 0 for t in tot)
+        arg_snap = snap(arg) if isinstance(arg, np.ndarray) else None
         try:
             with warnings.catch_warnings():
                 warnings.simplefilter("ignore")
                 mc = estimate_mc(arg)
+            if arg_snap is not None:
+                if snap(arg) != arg_snap:
+                    ctx.spec_fail("input_mutated", "estimate_mc changed its argument", rp)
+                if np.shares_memory(np.asarray(mc.P), arg) or np.shares_memory(np.asarray(mc.state_values), arg):
+                    ctx.spec_fail("alias_result_input", "estimate_mc's result shares memory with X", rp)
             P = np.asarray(mc.P)
             sv = np.asarray(mc.state_values)
             svq = [tuple(Fraction(v.item()) for v in row) for row in sv.reshape(len(sv), -1)]
@@ -799,9 +868,15 @@ def fit_cases(ctx, cases):
         try:
             with warnings.catch_warnings():
                 warnings.simplefilter("ignore")
+                in_arrs = [a for a in [Xa] + list(tg) if isinstance(a, np.ndarray)]
+                in_snaps = [snap(a) for a in in_arrs]
                 mc = fit_discrete_mc(Xa, tg, order=order)
             P = np.asarray(mc.P)
             sv = np.asarray(mc.state_values)
+            if [snap(a) for a in in_arrs] != in_snaps:
+                ctx.spec_fail("input_mutated", "fit_discrete_mc changed X or a grid", rp)
+            if any(np.shares_memory(P, a) or np.shares_memory(sv, a) for a in in_arrs):
+                ctx.spec_fail("alias_result_input", "fit_discrete_mc's result shares memory with an input", rp)
             svq = [[Fraction(float(v)) for v in row] for row in sv.reshape(len(sv), -1)]
             impl = "idx=%s states=%s P=%s" % (ints(idx_code), ratm(svq), fxm(P))
             if ok:
@@ -840,6 +915,226 @@ def fit_cases(ctx, cases):
 # ----------------------------------------------------------------------------
 
 
+# ----------------------------------------------------------------------------
+# histories, kept results, aliasing (one process, many interleaved calls)
+
+
+def unlisted(ctx, key, what, rp):
+    """a defect of the CLEAN code on a legal form / history: alarmed only once listed in known_findings.txt"""
+    if key in ctx.known:
+        ctx.spec_fail(key, what, rp)
+    else:
+        ctx.count("unlisted-finding:" + key)
+        ctx.notes.append("unlisted-finding:%s: %s" % (key, what))
+
+
+def oracle_fit(X, grids, order):
+    """pure-Python fit_discrete_mc: per-dimension nearest grid index (ties to the lower index), product index in the
+    given order, brute-force counting. X, grids: Fractions. Returns (idx, state indices, state points, counts, totals)"""
+    idx = []
+    for x in X:
+        ind = []
+        for g, xi in zip(grids, x):
+            dist = [abs(xi - v) for v in g]
+            ind.append(dist.index(min(dist)))
+        k, mul = 0, 1
+        dims = range(len(grids)) if order == "F" else reversed(range(len(grids)))
+        for d in dims:
+            k += mul * ind[d]
+            mul *= len(grids[d])
+        idx.append(k)
+    if order == "C":
+        prodq = [list(t) for t in itertools.product(*grids)]
+    else:
+        prodq = [list(reversed(t)) for t in itertools.product(*reversed(grids))]
+    states, C, tot = brute_estimate(idx)
+    return idx, states, [prodq[k] for k in states], C, tot
+
+
+def snap(a):
+    a = np.asarray(a)
+    return (a.tobytes(), a.shape, str(a.dtype))
+
+
+class Kept:
+    """a returned MarkovChain kept alive, with the bits of P and state_values at return time"""
+    def __init__(self, label, mc, args_key, inputs):
+        self.label, self.mc, self.args_key = label, mc, args_key
+        self.P0, self.sv0 = snap(mc.P), snap(mc.state_values)      # as returned (never updated)
+        self.P, self.sv = self.P0, self.sv0                         # expected current bits (updated when WE edit)
+        self.inputs = inputs                                        # list of (name, ndarray) handed to the call
+        self.in_snaps = [snap(a) for _, a in inputs]
+
+
+def history_cases(ctx):
+    from quantecon.markov.approximation import rouwenhorst, tauchen
+    from quantecon.markov.estimate import estimate_mc, fit_discrete_mc
+    r = ctx.rng
+    for ep in range(ctx.n(14, 120)):
+        kept, log = [], []
+
+        def rp():
+            return {"op": "history", "episode": ep, "calls": list(log)}
+
+        def audit(step):
+            """every kept result bitwise as expected; every input array bitwise unchanged"""
+            for kk in kept:
+                if snap(kk.mc.P) != kk.P or snap(kk.mc.state_values) != kk.sv:
+                    ctx.spec_fail("history_kept_result_changed",
+                                  "result of call %s changed after %s" % (kk.label, step), rp())
+                    kk.P, kk.sv = snap(kk.mc.P), snap(kk.mc.state_values)
+                for (nm, a), s0 in zip(kk.inputs, kk.in_snaps):
+                    if snap(a) != s0:
+                        ctx.spec_fail("input_mutated", "input %s of call %s changed after %s" % (nm, kk.label, step), rp())
+                        kk.in_snaps = [snap(b) for _, b in kk.inputs]
+
+        def aliasing(new):
+            arrs = [("P", np.asarray(new.mc.P)), ("state_values", np.asarray(new.mc.state_values))]
+            if np.shares_memory(arrs[0][1], arrs[1][1]):
+                ctx.spec_fail("alias_result_result", "P and state_values of %s share memory" % new.label, rp())
+            for nm, a in arrs:
+                for inm, ia in new.inputs:
+                    if np.shares_memory(a, ia):
+                        ctx.spec_fail("alias_result_input", "%s of %s shares memory with input %s" % (nm, new.label, inm), rp())
+                for kk in kept:
+                    for knm, ka in (("P", kk.mc.P), ("state_values", kk.mc.state_values)):
+                        if np.shares_memory(a, np.asarray(ka)):
+                            ctx.spec_fail("alias_result_earlier",
+                                          "%s of %s shares memory with %s of earlier call %s" % (nm, new.label, knm, kk.label), rp())
+                    for inm, ia in kk.inputs:
+                        if np.shares_memory(a, ia):
+                            ctx.spec_fail("alias_result_input", "%s of %s shares memory with input %s of earlier call %s"
+                                          % (nm, new.label, inm, kk.label), rp())
+
+        def do_call(kind, args):
+            """args: serialisable description; returns a Kept or None"""
+            label = "#%d:%s" % (len(log), kind)
+            log.append({"fn": kind, "args": args})
+            inputs = []
+            try:
+                if kind in ("tauchen", "rouwenhorst"):
+                    n, rho, sigma, mu = args["n"], float.fromhex(args["rho"]), float.fromhex(args["sigma"]), float.fromhex(args["mu"])
+                    if kind == "tauchen":
+                        mc = tauchen(n, rho, sigma, mu, args["n_std"])
+                        tauchen_spec(ctx, n, rho, sigma, mu, args["n_std"], np.asarray(mc.P), np.asarray(mc.state_values))
+                    else:
+                        mc = rouwenhorst(n, rho, sigma, mu)
+                        rouw_spec(ctx, n, rho, sigma, mu, np.asarray(mc.P), np.asarray(mc.state_values))
+                elif kind == "estimate_mc":
+                    X = np.array(args["X"], dtype=args["dtype"])
+                    inputs = [("X", X)]
+                    obs = [tuple(Fraction(v.item()) for v in row) for row in X.reshape(len(X), -1)]
+                    states, C, tot = brute_estimate(obs)
+                    mc = estimate_mc(X)
+                    sv = np.asarray(mc.state_values)
+                    svq = [tuple(Fraction(v.item()) for v in row) for row in sv.reshape(len(sv), -1)]
+                    P, m = np.asarray(mc.P), len(states)
+                    if svq != states or P.shape != (m, m) or any(float(P[i, j]) != C[i][j] / tot[i] for i in range(m) for j in range(m)):
+                        ctx.spec_fail("estimate_mc_history", "estimate_mc wrong inside a history (%s)" % label, rp())
+                else:
+                    Xq = [[Fraction(v) for v in row] for row in args["X"]]
+                    gq = [[Fraction(v) for v in g] for g in args["grids"]]
+                    X = np.array([[float(v) for v in row] for row in Xq])
+                    grids = tuple(np.array([float(v) for v in g]) for g in gq)
+                    inputs = [("X", X)] + [("grids[%d]" % i, g) for i, g in enumerate(grids)]
+                    idx, st, pts, C, tot = oracle_fit(Xq, gq, args["order"])
+                    mc = fit_discrete_mc(X, grids, order=args["order"])
+                    sv = np.asarray(mc.state_values)
+                    svq = [[Fraction(float(v)) for v in row] for row in sv.reshape(len(sv), -1)]
+                    P, m = np.asarray(mc.P), len(st)
+                    if svq != pts or P.shape != (m, m) or any(float(P[i, j]) != C[i][j] / tot[i] for i in range(m) for j in range(m)):
+                        ctx.spec_fail("fit_history", "fit_discrete_mc wrong inside a history (%s)" % label, rp())
+            except Exception as e:
+                ctx.spec_fail("history_raises", "%s raised %s: %s" % (label, type(e).__name__, str(e)[:150]), rp())
+                return None
+            new = Kept(label, mc, json.dumps([kind, args], sort_keys=True), inputs)
+            aliasing(new)
+            # a repeated call (same arguments as an earlier one) must return the same bits as that one did
+            for kk in kept:
+                if kk.args_key == new.args_key and (kk.P0, kk.sv0) != (new.P0, new.sv0):
+                    ctx.spec_fail("history_repeat_differs", "%s differs from the identical earlier call %s" % (label, kk.label), rp())
+            kept.append(new)
+            ctx.count("history:call-" + kind)
+            return new
+
+        def fresh_args(kind):
+            if kind in ("tauchen", "rouwenhorst"):
+                n, rho, sigma, mu = ar1_params(ctx, r.choice(["dyadic", "small"]))
+                n = min(n, 9)
+                a = {"n": n, "rho": float(rho).hex(), "sigma": float(sigma).hex(), "mu": float(mu).hex()}
+                if kind == "tauchen":
+                    a["n_std"] = r.randint(1, 5)
+                return a
+            if kind == "estimate_mc":
+                dt = r.choice(["int64", "int8", "float64", "int32"])
+                k = r.randint(1, 4)
+                pool = r.sample(range(-100, 101), k)
+                T = r.randint(2, 30)
+                seq = [r.choice(pool) for _ in range(T - 1)]
+                seq.append(seq[r.randrange(len(seq))])
+                if r.random() < 0.3:          # 2-d observations
+                    seq = [[v, v % 3] for v in seq]
+                return {"X": seq, "dtype": dt}
+            d = r.randint(1, 2)
+            grids = [[str(Fraction(v, 2)) for v in sorted(r.sample(range(-6, 7), r.randint(1, 4)))] for _ in range(d)]
+            T = r.randint(2, 20)
+            X = [[str(Fraction(r.randint(-64, 64), 8)) for _ in range(d)] for _ in range(T - 1)]
+            X.append(list(X[r.randrange(len(X))]))
+            return {"X": X, "grids": grids, "order": r.choice("CF")}
+
+        for step in range(ctx.n(10, 16)):
+            act = r.random()
+            if act < 0.45 or not kept:
+                kind = r.choice(["tauchen", "rouwenhorst", "estimate_mc", "fit_discrete_mc"])
+                do_call(kind, fresh_args(kind))
+                what = "a new call"
+            elif act < 0.65:            # the same call again (same arguments, fresh input arrays)
+                kk = r.choice(kept)
+                kind, args = json.loads(kk.args_key)
+                do_call(kind, args)
+                ctx.count("history:repeat")
+                what = "a repeated call"
+            elif act < 0.8:             # use the lazily built parts of a kept chain
+                kk = r.choice(kept)
+                try:
+                    with warnings.catch_warnings():
+                        warnings.simplefilter("ignore")
+                        kk.mc.stationary_distributions
+                        kk.mc.cdfs
+                        kk.mc.is_irreducible
+                        kk.mc.simulate(5, random_state=r.randrange(100))
+                except Exception:
+                    pass                # the behaviour of MarkovChain itself is C02 / C03 / C10's subject
+                log.append({"fn": "use-caches", "of": kk.label})
+                ctx.count("history:use-lazy-caches")
+                what = "using the caches of %s" % kk.label
+            elif act < 0.9:             # WE edit a kept result in place: later calls must not see it
+                kk = r.choice(kept)
+                Pm, svm = np.asarray(kk.mc.P), np.asarray(kk.mc.state_values)
+                if Pm.flags.writeable and svm.flags.writeable:
+                    Pm[...] = 0
+                    Pm[:, 0] = 1
+                    svm[...] = svm[::-1].copy() if svm.dtype != bool else svm
+                    kk.P, kk.sv = snap(Pm), snap(svm)
+                    log.append({"fn": "edit-result-in-place", "of": kk.label})
+                    ctx.count("history:edit-result-in-place")
+                what = "editing %s in place" % kk.label
+            else:                       # WE edit the input arrays of an earlier call: kept results must not change
+                cand = [kk for kk in kept if kk.inputs]
+                if cand:
+                    kk = r.choice(cand)
+                    for _, a in kk.inputs:
+                        if a.flags.writeable:
+                            a[...] = a[::-1].copy()
+                    kk.in_snaps = [snap(a) for _, a in kk.inputs]
+                    log.append({"fn": "edit-inputs-in-place", "of": kk.label})
+                    ctx.count("history:edit-inputs-in-place")
+                what = "editing the inputs of an earlier call"
+            audit(what)
+        ctx.count("history:episodes")
+
+
+
 def run(ctx):
     warnings.simplefilter("ignore")
     ctx.rule = ("rouwenhorst/tauchen: n in 2..40, rho in (-0.99,0.99) incl. negative and near-boundary, sigma log-uniform in "
@@ -859,6 +1154,8 @@ def run(ctx):
     estimate_cases(ctx, cases)
     fit_layout_probe(ctx)
     fit_cases(ctx, cases)
+    history_cases(ctx)
+    scalar_form_probes(ctx)
     ctx.run_cases(cases)
 
 
